@@ -45,9 +45,10 @@ StepFor(w, s, c) == CASE w = "rule" -> RuleStep(s, c) [] w = "arch" -> ArchStep(
 
 NewStep ==
     /\ IsEvent("new")
-    /\ LET j == TraceLog[l] IN
-       objs' = IF j.first THEN (j.h :> [which |-> j.which, st |-> InitOf(j.which)])
-               ELSE (j.h :> [which |-> j.which, st |-> InitOf(j.which)]) @@ objs
+    /\ LET j == TraceLog[l]
+           \* a LayerRule history comes with the definition of the LayeredArchitecture it will be based on
+           rec == [which |-> j.which, st |-> InitOf(j.which), basis |-> IF "basis" \in DOMAIN j THEN j.basis ELSE <<>>] IN
+       objs' = IF j.first THEN (j.h :> rec) ELSE (j.h :> rec) @@ objs
 
 CallProp(w, m) == CASE w = "rule" -> "C13"
                     [] w = "arch" -> "C16"
@@ -71,6 +72,14 @@ ShowStep ==
            got == [i \in DOMAIN j.layers |-> [name |-> j.layers[i].name, items |-> j.layers[i].items]] IN
        /\ Check(got = want, "C16", "definition-differs-from-accepted-calls", [got |-> got, want |-> want])
        /\ Check(ArchWF(o.st), "MACHINERY", "automaton-reached-ill-formed-architecture", j.h)
+    /\ UNCHANGED objs
+
+\* C16: an accepted definition lists exactly what was supplied - also after any number of LayerRule builder calls
+\* and evaluations that were based on it
+BasisStep ==
+    /\ IsEvent("basis")
+    /\ LET j == TraceLog[l]  o == objs[j.h] IN
+       Check(j.layers = o.basis, "C16", "layer-definition-changed-by-layer-rule-call", [got |-> j.layers, want |-> o.basis])
     /\ UNCHANGED objs
 
 AssertStep ==
@@ -104,7 +113,7 @@ EntryStep ==
     /\ UNCHANGED objs
 
 TraceInit == l = 1 /\ objs = <<>>
-TraceNext == NewStep \/ CallStep \/ ShowStep \/ AssertStep \/ EntryStep
+TraceNext == NewStep \/ CallStep \/ ShowStep \/ BasisStep \/ AssertStep \/ EntryStep
 TraceSpec == TraceInit /\ [][TraceNext]_vars
 TraceAccepted == TLCGet("stats").diameter - 1 = Len(TraceLog)
 =============================================================================
